@@ -16,10 +16,10 @@ package dag
 //@ spec func WF(g *Graph) bool = g != nil && g.Vertices != nil && g.errs != nil && g.maxParallel >= 1 && (forall id ID :: (id in g.Vertices) ==> VertexOK(g, id))
 
 //@ func NewGraph
-//@   props C16 C15 C19
+//@   props C13 C14 C15 C16 C19
 //@   allocates Graph, Errors, map[ID]*Vertex
 //@   modifies
-//@   ensures newgraph.wf {C16}: fresh(result) && WF(result) && len(result.errs.Errors) == 0 && (forall id ID :: !(id in result.Vertices))
+//@   ensures newgraph.wf {C13,C14,C15,C16}: fresh(result) && WF(result) && len(result.errs.Errors) == 0 && (forall id ID :: !(id in result.Vertices))
 //@   ensures newgraph.par {C15}: result.maxParallel >= 1 && !result.serial
 
 //@ func (*Graph).SetMaxParallel
@@ -35,52 +35,52 @@ package dag
 //@   ensures g.serial && result == g
 
 //@ func (*Graph).addTask
-//@   props C16 C13 C19
+//@   props C13 C14 C15 C16 C19
 //@   requires addtask.wf: WF(g)
 //@   allocates Vertex
 //@   modifies mapof(g.Vertices), g.dotDiagram, Vertex.Task
-//@   ensures addtask.wf {C16,C13}: WF(g)
+//@   ensures addtask.wf {C13,C14,C15,C16}: WF(g)
 //@   ensures addtask.ok {C16}: result == nil ==> t != nil && (t.ID in g.Vertices) && g.Vertices[t.ID].Task == t
-//@   ensures addtask.keeps {C16,C13}: forall id ID :: old(id in g.Vertices) ==> (id in g.Vertices) && g.Vertices[id] == old(g.Vertices[id])
+//@   ensures addtask.keeps {C13,C14,C15,C16}: forall id ID :: old(id in g.Vertices) ==> (id in g.Vertices) && g.Vertices[id] == old(g.Vertices[id])
 //@   ensures addtask.err {C16}: result != nil ==> (forall id ID :: (id in g.Vertices) == old(id in g.Vertices))
 //@   ensures addtask.errs: g.errs == old(g.errs) && g.maxParallel == old(g.maxParallel)
 
 //@ func (*Graph).AddTask
-//@   props C16 C19
+//@   props C13 C14 C15 C16 C19
 //@   requires WF(g)
 //@   allocates Vertex
 //@   modifies mapof(g.Vertices), g.dotDiagram, g.errs.Errors, Vertex.Task
-//@   ensures addtaskpub.wf {C16}: WF(g)
-//@   ensures addtaskpub.keeps {C16,C13}: forall id ID :: old(id in g.Vertices) ==> (id in g.Vertices) && g.Vertices[id] == old(g.Vertices[id])
+//@   ensures addtaskpub.wf {C13,C14,C15,C16}: WF(g)
+//@   ensures addtaskpub.keeps {C13,C14,C15,C16}: forall id ID :: old(id in g.Vertices) ==> (id in g.Vertices) && g.Vertices[id] == old(g.Vertices[id])
 
 //@ func (*Graph).retrieveOrAddVertex
-//@   props C16 C19
+//@   props C13 C14 C15 C16 C19
 //@   requires WF(g)
 //@   allocates Vertex
 //@   modifies mapof(g.Vertices), g.dotDiagram, Vertex.Task
-//@   ensures retr.wf {C16}: WF(g)
-//@   ensures retr.ok {C16}: result1 == nil ==> Registered(g, result0)
-//@   ensures retr.keeps {C16,C13}: forall id ID :: old(id in g.Vertices) ==> (id in g.Vertices) && g.Vertices[id] == old(g.Vertices[id])
+//@   ensures retr.wf {C13,C14,C15,C16}: WF(g)
+//@   ensures retr.ok {C13,C14,C15,C16}: result1 == nil ==> Registered(g, result0)
+//@   ensures retr.keeps {C13,C14,C15,C16}: forall id ID :: old(id in g.Vertices) ==> (id in g.Vertices) && g.Vertices[id] == old(g.Vertices[id])
 
 //@ func (*Graph).TaskRetries
-//@   props C16 C13 C19
+//@   props C13 C14 C15 C16 C19
 //@   requires WF(g)
 //@   requires retries.sane: retries < 9223372036854775807    //# a retry count of MaxInt would make the attempt counter wrap around
 //@   allocates Vertex
 //@   modifies mapof(g.Vertices), g.dotDiagram, g.errs.Errors, Vertex.Retries, Vertex.Task
-//@   ensures retries.wf {C16}: WF(g)
+//@   ensures retries.wf {C13,C14,C15,C16}: WF(g)
 
 //@ func (*Graph).TaskDependsOn
-//@   props C16 C13 C19
+//@   props C13 C14 C15 C16 C19
 //@   requires depends.wf: WF(g)
 //@   allocates Vertex
 //@   modifies mapof(g.Vertices), g.dotDiagram, g.errs.Errors, Vertex.Children, Vertex.Parents, Vertex.Task
-//@   ensures depends.wf {C16,C13}: WF(g)
-//@   ensures depends.keeps {C16,C13}: forall id ID :: old(id in g.Vertices) ==> (id in g.Vertices) && g.Vertices[id] == old(g.Vertices[id])
+//@   ensures depends.wf {C13,C14,C15,C16}: WF(g)
+//@   ensures depends.keeps {C13,C14,C15,C16}: forall id ID :: old(id in g.Vertices) ==> (id in g.Vertices) && g.Vertices[id] == old(g.Vertices[id])
 //@   loop "for _, tDependency := range tDependencies"
 //@     invariant dep.wf: WF(g) && Registered(g, vertex) && g == old(g)
 //@     invariant dep.keeps: forall id ID :: old(id in g.Vertices) ==> (id in g.Vertices) && g.Vertices[id] == old(g.Vertices[id])
-//@     step dep.edge {C14,C16}: !$exit ==> (forall d *Vertex :: d == vDependency ==> isappend1(vertex.Children, old_iter(vertex.Children), d) && isappend1(d.Parents, old_iter(d.Parents), vertex))
+//@     step dep.edge {C13,C14,C15,C16}: !$exit ==> (forall d *Vertex :: d == vDependency ==> isappend1(vertex.Children, old_iter(vertex.Children), d) && isappend1(d.Parents, old_iter(d.Parents), vertex))
 //@   loop "for _, c := range vertex.Children"
 //@     invariant dup.none: forall i int :: 0 <= i && i <= $idx ==> vertex.Children[i].ID != vDependency.ID
 
